@@ -544,4 +544,269 @@ theorem connect_outcome (cfg : Cfg) (w : World) :
                 · exact ⟨by simp, fun _ => Or.inl (dropConn_conn _ _)⟩
               · exact ⟨by simp, fun _ => Or.inl (dropConn_conn _ _)⟩
 
+/-! ### connection identities: every new connection gets a brand-new identity -/
+
+@[simp] theorem log_nlogs (w : World) (k : Nat) (s : String) : (w.log k s).logs.length = w.logs.length := by
+  simp [World.log]
+
+theorem releaseItems_nlogs : ∀ (n : Nat) (w : World) (c : ConnSt), (releaseItems n w c).1.logs.length = w.logs.length := by
+  intro n
+  induction n with
+  | zero => intro w c; rfl
+  | succ n ih =>
+    intro w c
+    simp only [releaseItems]
+    split
+    · rfl
+    · split
+      · rfl
+      · split
+        · exact ih _ _
+        · exact ih _ _
+        · exact ih _ _
+        · rfl
+        · simp
+
+theorem termRx_nlogs (w : World) (c : ConnSt) (p : Bytes) : (termRx w c p).1.logs.length = w.logs.length := by
+  unfold termRx
+  simp only
+  split
+  · rw [releaseItems_nlogs]; simp
+  · rw [releaseItems_nlogs]; simp
+
+theorem connWrite_nlogs (w : World) (c : ConnSt) (p : Bytes) (w' : World) (c' : ConnSt)
+    (h : connWrite w c p = some (w', c')) : w'.logs.length = w.logs.length := by
+  unfold connWrite at h
+  split at h
+  · simp at h
+  · simp at h
+    have := termRx_nlogs w c p
+    rw [h] at this; exact this
+
+theorem dropConn_nlogs (w : World) (c : ConnSt) : (dropConn w c).logs.length = w.logs.length := by
+  unfold dropConn; split <;> simp
+
+theorem seqNext_nlogs (d : SeqDesc) (w : World) (c : ConnSt) (st : SeqSt) :
+    (seqNext d w c st).2.1.logs.length = w.logs.length := by
+  unfold seqNext
+  cases st with
+  | done => rfl
+  | start =>
+    simp only
+    cases hw : connWrite w c d.cmd with
+    | none => rfl
+    | some wc =>
+      obtain ⟨w1, c1⟩ := wc
+      have h1 := connWrite_nlogs w c d.cmd w1 c1 hw
+      simp only
+      rcases connRead c1 with ⟨r, c2⟩
+      cases r with
+      | hang => exact h1
+      | eof => exact h1
+      | pkt p =>
+        simp only
+        cases parseEnum Generated.io_Ack p with
+        | error e => exact h1
+        | ok a =>
+          simp only
+          rcases connRead c2 with ⟨r2, c3⟩
+          cases r2 with
+          | hang => exact h1
+          | eof => exact h1
+          | pkt p2 =>
+            simp only
+            cases parseEnum d.enum p2 with
+            | error e => exact h1
+            | ok iv =>
+              obtain ⟨i, v⟩ := iv
+              simp only
+              cases hw2 : connWrite w1 c3 ackBytes with
+              | none => exact h1
+              | some wc2 =>
+                obtain ⟨w2, c4⟩ := wc2
+                simp only
+                rw [connWrite_nlogs w1 c3 ackBytes w2 c4 hw2]; exact h1
+  | looping =>
+    simp only
+    rcases connRead c with ⟨r, c2⟩
+    cases r with
+    | hang => rfl
+    | eof => rfl
+    | pkt p =>
+      simp only
+      cases parseEnum d.enum p with
+      | error e => rfl
+      | ok iv =>
+        obtain ⟨i, v⟩ := iv
+        simp only
+        cases hw2 : connWrite w c2 ackBytes with
+        | none => rfl
+        | some wc2 =>
+          obtain ⟨w2, c4⟩ := wc2
+          simp only
+          exact connWrite_nlogs w c2 ackBytes w2 c4 hw2
+
+theorem runItems_nlogs {σ ρ : Type} (d : SeqDesc) (timeout : Nat) (step : σ → Item → Step σ ρ) :
+    ∀ (fuel : Nat) (w : World) (c : ConnSt) (st : SeqSt) (s : σ),
+      (runItems d timeout step fuel w c st s).2.1.logs.length = w.logs.length := by
+  intro fuel
+  induction fuel with
+  | zero => intro w c st s; simp [runItems]
+  | succ fuel ih =>
+    intro w c st s
+    simp only [runItems]
+    have hn := seqNext_nlogs d w c st
+    generalize seqNext d w c st = q at hn ⊢
+    obtain ⟨o, w1, c1, st1⟩ := q
+    simp only at hn
+    cases o with
+    | ended => simp only; exact hn
+    | hang => simp only; rw [dropConn_nlogs]; exact hn
+    | item it =>
+      cases it with
+      | err =>
+        simp only
+        cases step s .err <;> (simp only; rw [dropConn_nlogs]; exact hn)
+      | ok i v =>
+        simp only
+        cases step s (.ok i v) with
+        | ret r => simp only; exact hn
+        | cont s' =>
+          simp only
+          rw [ih w1 c1 st1 s']; exact hn
+
+theorem onceExchange_nlogs (d : SeqDesc) (w : World) (c : ConnSt) : (onceExchange d w c).2.1.logs.length = w.logs.length := by
+  have h := seqNext_nlogs d w c .start
+  unfold onceExchange
+  generalize seqNext d w c .start = q at h ⊢
+  obtain ⟨o, w1, c1, st⟩ := q
+  cases o <;> exact h
+
+/-- the handshake opens exactly one new connection slot, whatever its outcome. -/
+theorem connect_nlogs (cfg : Cfg) (w : World) : (connect cfg w).1.logs.length = w.logs.length + 1 := by
+  unfold connect
+  simp only
+  split
+  · simp
+  · split
+    · simp
+    · generalize hw0 : ({ w with logs := w.logs ++ [[s!"open@{w.now}"]] } : World) = w0
+      have hl0 : w0.logs.length = w.logs.length + 1 := by rw [← hw0]; simp
+      have h1 := onceExchange_nlogs (seqDesc "sequences::Registration" (registrationCmd cfg)) w0 { id := w.logs.length }
+      generalize onceExchange (seqDesc "sequences::Registration" (registrationCmd cfg)) w0 { id := w.logs.length } = q1 at h1 ⊢
+      obtain ⟨o, w1, c1⟩ := q1
+      simp only at h1
+      cases o with
+      | none => simp only; rw [dropConn_nlogs]; simp only; rw [h1, hl0]
+      | some it =>
+        cases it with
+        | err => simp only; rw [dropConn_nlogs, h1, hl0]
+        | ok i v =>
+          simp only
+          have h2 := onceExchange_nlogs (seqDesc "feig::sequences::GetSystemInfo" sysInfoCmd) w1 c1
+          generalize onceExchange (seqDesc "feig::sequences::GetSystemInfo" sysInfoCmd) w1 c1 = q2 at h2 ⊢
+          obtain ⟨o2, w2, c2⟩ := q2
+          simp only at h2
+          cases o2 with
+          | none => simp only; rw [dropConn_nlogs]; simp only; rw [h2, h1, hl0]
+          | some it2 =>
+            cases it2 with
+            | err => simp only; rw [dropConn_nlogs, h2, h1, hl0]
+            | ok i2 v2 =>
+              simp only
+              split
+              · split
+                · simp only; rw [h2, h1, hl0]
+                · rw [dropConn_nlogs, h2, h1, hl0]
+              · rw [dropConn_nlogs, h2, h1, hl0]
+
+/-- `w` descends from `w0`: no connection slot disappeared, and the live connection is the one that was live
+in `w0` or one that was opened since (its identity is not among the slots of `w0`). -/
+def FreshRel (w0 w : World) : Prop :=
+  w0.logs.length ≤ w.logs.length ∧
+  ∀ c', w.conn = some c' → (∃ c, w0.conn = some c ∧ c'.id = c.id) ∨ w0.logs.length ≤ c'.id
+
+theorem FreshRel.refl (w : World) : FreshRel w w :=
+  ⟨Nat.le_refl _, fun c' h => Or.inl ⟨c', h, rfl⟩⟩
+
+theorem freshRel_ensureConn (cfg : Cfg) (w0 w : World) (h : FreshRel w0 w) : FreshRel w0 (ensureConn cfg w).1 := by
+  unfold ensureConn
+  cases hc : w.conn with
+  | some c => simp only; exact h
+  | none =>
+    simp only
+    have hl := connect_nlogs cfg w
+    have ho := connect_outcome cfg w
+    have h01 := h.1
+    refine ⟨by omega, ?_⟩
+    intro c' hc'
+    cases hb : (connect cfg w).2 with
+    | true =>
+      obtain ⟨c, h1, h2⟩ := ho.1 hb
+      rw [h1] at hc'; cases hc'
+      right; rw [h2]; exact h.1
+    | false =>
+      rcases ho.2 hb with h1 | h1
+      · rw [h1] at hc'; cases hc'
+      · rw [h1, hc] at hc'; cases hc'
+
+theorem freshRel_runItems {σ ρ : Type} (d : SeqDesc) (timeout : Nat) (step : σ → Item → Step σ ρ) (fuel : Nat)
+    (w0 w : World) (c : ConnSt) (st : SeqSt) (s : σ) (h : FreshRel w0 w) (hc : w.conn = some c) :
+    FreshRel w0 (runItems d timeout step fuel w c st s).2.1 := by
+  have hl := runItems_nlogs d timeout step fuel w c st s
+  have hcn := runItems_conn d timeout step fuel w c st s
+  refine ⟨by rw [hl]; exact h.1, ?_⟩
+  intro c' hc'
+  cases hb : (runItems d timeout step fuel w c st s).2.2 with
+  | true => rw [hcn.1 hb] at hc'; cases hc'
+  | false =>
+    obtain ⟨c2, h1, h2⟩ := hcn.2 hb
+    rw [h1] at hc'; cases hc'
+    rcases h.2 c hc with ⟨c0, h3, h4⟩ | h3
+    · exact Or.inl ⟨c0, h3, by rw [h2, h4]⟩
+    · right; rw [h2]; exact h3
+
+/-- **A dropped connection is never picked up again**: after any number of attempts of an exchange, the live
+connection (if any) is the one that was live before the exchange, or one that was opened during it. -/
+theorem retryLoop_fresh {σ ρ : Type} (cfg : Cfg) (d : SeqDesc) (timeout : Nat) (step : σ → Item → Step σ ρ) (w0 : World) :
+    ∀ (n : Nat) (prev : Option Nat) (w : World) (s : σ), FreshRel w0 w →
+      FreshRel w0 (retryLoop cfg d timeout step n prev w s).2 := by
+  intro n
+  induction n with
+  | zero => intro prev w s h; simpa [retryLoop] using h
+  | succ n ih =>
+    intro prev w s h
+    simp only [retryLoop]
+    have ht : FreshRel w0 { w with now := throttleStart prev w.now } := h
+    have he := freshRel_ensureConn cfg w0 _ ht
+    generalize ensureConn cfg { w with now := throttleStart prev w.now } = q at he ⊢
+    obtain ⟨w1, live⟩ := q
+    simp only at he
+    cases live with
+    | false =>
+      simp only
+      cases step s .err with
+      | ret r => exact he
+      | cont s' => exact ih _ w1 s' he
+    | true =>
+      simp only
+      cases hc1 : w1.conn with
+      | none => exact he
+      | some c =>
+        simp only
+        have hr := freshRel_runItems d timeout step ITEM_FUEL w0 w1 c .start s he hc1
+        generalize runItems d timeout step ITEM_FUEL w1 c .start s = q2 at hr ⊢
+        obtain ⟨o, w2, e⟩ := q2
+        simp only at hr
+        cases o with
+        | ret r => exact hr
+        | cont s' =>
+          cases e with
+          | false => exact hr
+          | true => exact ih _ w2 s' hr
+
+theorem runOp_fresh {σ ρ : Type} (cfg : Cfg) (seqName : String) (cmd : Bytes) (timeout : Nat)
+    (step : σ → Item → Step σ ρ) (w : World) (s : σ) : FreshRel w (runOp cfg seqName cmd timeout step w s).2 :=
+  retryLoop_fresh cfg (seqDesc seqName cmd) timeout step w ATTEMPTS none w s (FreshRel.refl w)
+
 end Zvt
